@@ -213,7 +213,9 @@ def frontier_cases():
             sub.is_stuck = lambda: kind == "stuck"
             sub.get_stuck_reason = lambda: "unsupported"
             appended, sliced = [], []
-            post = NS(context=sub, call_sequence=None, block=NS(timestamp=z3.BitVec("old", 256)))
+            # SEVM.run_message and create_branch hand the call sequence on by reference: the post-state arrives holding
+            # the very list object of the (cached) pre-state
+            post = NS(context=sub, call_sequence=pre_ex.call_sequence, block=NS(timestamp=z3.BitVec("old", 256)))
             post.is_panic_of = lambda codes: kind.startswith("panic")
             post.path_slice = lambda: sliced.append(1)
             post.path = NS(append=lambda c: appended.append(c))
@@ -238,6 +240,7 @@ def frontier_cases():
                 ctx.oblige(f"no-exception[{type(payload).__name__}]", z3.BoolVal(False), info={"msg": str(payload)[:200]})
                 return
             ctx.oblige("the call is recorded: call sequence of the post-state = sequence of the pre-state + this call", z3.BoolVal(post.call_sequence == ["<call 1>", sub] and pre_ex.call_sequence == ["<call 1>"]))
+            ctx.oblige("frame: the pre-state (a cached frontier state shared by sibling post-states and later tests) keeps its own call sequence; the post-state gets a new list", z3.BoolVal(pre_ex.call_sequence == ["<call 1>"] and post.call_sequence is not pre_ex.call_sequence))
             ctx.oblige("each post-state gets its own path id", z3.BoolVal(env.lookup("path_id") == path_id0 + 1))
             kept = next_exs == [post] and yields == [post]
             dropped = next_exs == [] and yields == []
@@ -304,7 +307,7 @@ def replay_partial_frontier(r):
     for k in range(3):
         sub = NS(output=NS(error=None, data=b""), message=NS(fun_info=NS(contract_name="T", sig=f"f{k}()")))
         sub.is_stuck = lambda: False
-        p = NS(context=sub, call_sequence=None, block=NS(timestamp=None), tag=f"post{k}")
+        p = NS(context=sub, call_sequence=s0.call_sequence, block=NS(timestamp=None), tag=f"post{k}")
         p.path_slice = lambda: None
         p.path = NS(append=lambda c: None)
         posts.append(p)
@@ -521,15 +524,59 @@ def replay_slice_order(r):
     return {"reproduced": False, "detail": "state constraints are closed under shared variables in both scenarios and the end-to-end frontier represents both calls"}
 
 
+def ground_fuzz_selector_decoding():
+    """abi_decode_FuzzSelector_array against an independent ABI encoder, exhaustively over small arrays: several
+    entries may name the same contract (forge-std appends one entry per targetSelector / excludeSelector call and
+    Foundry takes their union)"""
+    from halmos.bytevec import ByteVec
+
+    def word(n):
+        return int(n).to_bytes(32, "big")
+
+    def encode(entries):
+        items = []
+        for addr, sels in entries:
+            it = word(addr) + word(0x40) + word(len(sels)) + b"".join(bytes(x) + bytes(28) for x in sels)
+            items.append(it)
+        heads, pos = [], 32 * len(items)
+        for it in items:
+            heads.append(word(pos))
+            pos += len(it)
+        return word(0x20) + word(len(items)) + b"".join(heads) + b"".join(items)
+
+    ADDRS = [0xAAAA, 0xBBBB]
+    SELS = [b"\x11\x11\x11\x11", b"\x22\x22\x22\x22", b"\x33\x33\x33\x33"]
+    sel_lists = [[], [SELS[0]], [SELS[1]], [SELS[0], SELS[2]]]
+    universe = [(a, sl) for a in ADDRS for sl in sel_lists]
+    bad, n = [], 0
+    for k in range(0, 4):
+        for entries in itertools.product(universe, repeat=k):
+            n += 1
+            want = {}
+            for a, sl in entries:
+                want.setdefault(a, []).extend(sl)
+            try:
+                got = hm.abi_decode_FuzzSelector_array(ByteVec(encode(entries)))
+                got = {int(str(a)) if not hasattr(a, "as_long") else a.as_long(): [bytes(x) if isinstance(x, (bytes, bytearray)) else x for x in v] for a, v in dict(got).items()}
+            except Exception as e:  # noqa
+                got = f"{type(e).__name__}: {e}"
+            if got != want and len(bad) < 3:
+                bad.append((entries, got))
+    return [(f"abi_decode_FuzzSelector_array returns, for every contract, all selectors of all its entries in order, on all {n} arrays of up to 3 entries over 2 contracts", not bad, f"first disagreement: {str(bad[:1])[:300]}")]
+
+
 def build_cases(tier="quick"):
     from contracts import c20
 
     ref = [Case(f"{PROP}/__main__.run_message", c.case, c.harness, sources=c.sources) for c in c20.main_cases() if c.unit.endswith("__main__.run_message")]
+    from contracts import c11
+
+    ref += [Case(f"{PROP}/sevm.Path.extend_path#successor-owns-its-conditions", c.case, c.harness, replay=c.replay, sources=c.sources) for c in c11.path_growth_cases() if "extend_path" in c.unit]
     return sender_cases() + frontier_cases() + digest_cases() + slice_cases() + ref
 
 
 def grounds():
-    return [Ground(f"{PROP}/__main__.resolve_target_contracts", ground_target_contracts, sources=("halmos.__main__:resolve_target_contracts",)), Ground(f"{PROP}/__main__.resolve_target_selectors", ground_target_selectors, sources=("halmos.__main__:resolve_target_selectors",))]
+    return [Ground(f"{PROP}/__main__.resolve_target_contracts", ground_target_contracts, sources=("halmos.__main__:resolve_target_contracts",)), Ground(f"{PROP}/__main__.resolve_target_selectors", ground_target_selectors, sources=("halmos.__main__:resolve_target_selectors",)), Ground(f"{PROP}/__main__.abi_decode_FuzzSelector_array", ground_fuzz_selector_decoding, sources=("halmos.__main__:abi_decode_FuzzSelector_array",))]
 
 
 ASSUMPTIONS = [
